@@ -1,8 +1,8 @@
 SPECIFICATION EGenSpec
 CONSTANTS
   NAddr = 2
-  MaxObj = 4
-  MaxOps = 3
+  MaxObj = 2
+  MaxOps = 2
   MaxInflight = 1
   WithReplace = TRUE
   FixRemove = TRUE
